@@ -236,6 +236,10 @@ func (d *Demuxer) parse() error {
 		return ErrTruncated
 	}
 	totalSize := int(totalSize64)
+	if totalSize < container.RIFFHeaderSize {
+		// A RIFF size field below 4 does not even cover the "WEBP" tag.
+		return ErrInvalidRIFF
+	}
 	payload := d.data[container.RIFFHeaderSize:totalSize]
 
 	// Parse the first chunk to determine format.
